@@ -144,11 +144,15 @@ impl SizeManifest {
         }
 
         // Validate total_size matches sum of esizes
-        let computed_total: u64 = self.entries.iter().map(|e| e.esize).sum();
-        if computed_total != self.header.total_size() {
+        // (a sum that does not fit 64 bits cannot match any header)
+        let computed_total = self
+            .entries
+            .iter()
+            .try_fold(0u64, |total, e| total.checked_add(e.esize));
+        if computed_total != Some(self.header.total_size()) {
             return Err(SizeError::TotalSizeMismatch {
                 expected: self.header.total_size(),
-                actual: computed_total,
+                actual: computed_total.unwrap_or(u64::MAX),
             });
         }
 
